@@ -52,8 +52,8 @@ static std::vector<Val> values(bool thorough) {
 }
 
 // ---- representations
-enum Rep { R_ARRAY, R_REF, R_TRANSPOSED_STORAGE, R_SUBBLOCK, R_SHORT_ARRAY, R_SHORT_VIEW, R_STATIC, NREP };
-static char const* const rep_name[] = {"array", "array_ref", "view-of-rotated-storage", "padded-sub-block", "array<short>", "view-of-array<short>", "static_array"};
+enum Rep { R_ARRAY, R_REF, R_TRANSPOSED_STORAGE, R_SUBBLOCK, R_SHORT_ARRAY, R_SHORT_VIEW, R_STATIC, R_INNER_PADDED, R_OUTER_PADDED, NREP };
+static char const* const rep_name[] = {"array", "array_ref", "view-of-rotated-storage", "padded-sub-block", "array<short>", "view-of-array<short>", "static_array", "block-padded-in-last-dimension", "block-padded-in-leading-dimension"};
 
 template<class A> void put(A&& a, Val const& x) {  // write the logical value through plain indexing (C01's business)
 	idx k = 0;
@@ -73,6 +73,7 @@ template<int DD, class V, class F> void subblock(V&& v, std::vector<idx> const& 
 }
 
 // calls f(operand) with the value materialised in representation r; mutable lvalue
+static int g_pad = -9;   // padding value of the enclosing array: differs between the two operands so that a comparison that looks at padding is caught
 template<class F>
 bool with_rep(Val const& x, int r, F&& f) {
 	if constexpr(D == 0) {
@@ -100,7 +101,13 @@ bool with_rep(Val const& x, int r, F&& f) {
 			case R_SUBBLOCK: {
 				if(n == 0) { return false; }
 				std::vector<idx> be(x.ext); for(auto& e : be) { e += 1; }
-				multi::array<int, D> big(vo::make_extensions<D>(be), -9);
+				multi::array<int, D> big(vo::make_extensions<D>(be), g_pad);
+				subblock<D>(big(), x.ext, 0, [&](auto&& v) { fill(v, x); f(v); }); return true;
+			}
+			case R_INNER_PADDED: case R_OUTER_PADDED: {
+				if(n == 0 || D < 2) { return false; }
+				std::vector<idx> be(x.ext); if(r == R_INNER_PADDED) { be.back() += 1; } else { be.front() += 1; }
+				multi::array<int, D> big(vo::make_extensions<D>(be), g_pad);
 				subblock<D>(big(), x.ext, 0, [&](auto&& v) { fill(v, x); f(v); }); return true;
 			}
 			case R_SHORT_ARRAY: { multi::array<short, D> a(exts); fill(a, x); f(a); return true; }
@@ -135,7 +142,7 @@ static void report(Ctx const& c, char const* op, bool got, bool expect) {
 		mc::J().s("harness", "cmpmc").s("replay", rp).s("lhs", vstr(*c.a)).s("rhs", vstr(*c.b)).s("lhs_rep", rep_name[c.ra]).s("rhs_rep", rep_name[c.rb]).s("op", op).s("detail", std::string("library says ") + (got ? "true" : "false") + ", nested-sequence semantics say " + (expect ? "true" : "false")).str());
 }
 static void nocompile(Ctx const& c, char const* op) {
-	auto is_short = [](int r) { return r == R_SHORT_ARRAY || r == R_SHORT_VIEW; };
+	auto is_short = [](int r) { return r == R_SHORT_ARRAY || r == R_SHORT_VIEW; };  // (padding variants are int)
 	auto owning = [](int r) { return r == R_ARRAY || r == R_STATIC || r == R_SHORT_ARRAY; };
 	std::string cls;
 	if(is_short(c.ra) != is_short(c.rb) && std::string(op) != "==" && std::string(op) != "!=") { cls = "ordering-between-different-element-types"; }   // one class per (rank, operator)
@@ -173,7 +180,8 @@ int main(int argc, char** argv) {
 	auto body = [&](std::set<std::string> const&) {
 		auto vals = values(thorough);
 		std::vector<RP> rps = {{R_ARRAY, R_ARRAY}, {R_ARRAY, R_REF}, {R_REF, R_ARRAY}, {R_REF, R_TRANSPOSED_STORAGE}, {R_TRANSPOSED_STORAGE, R_SUBBLOCK}, {R_SUBBLOCK, R_ARRAY}, {R_ARRAY, R_SUBBLOCK}, {R_SUBBLOCK, R_SUBBLOCK},
-			{R_ARRAY, R_SHORT_ARRAY}, {R_SHORT_ARRAY, R_ARRAY}, {R_SHORT_VIEW, R_SUBBLOCK}, {R_SUBBLOCK, R_SHORT_VIEW}, {R_STATIC, R_ARRAY}, {R_STATIC, R_STATIC}, {R_REF, R_REF}, {R_TRANSPOSED_STORAGE, R_TRANSPOSED_STORAGE}};
+			{R_ARRAY, R_SHORT_ARRAY}, {R_SHORT_ARRAY, R_ARRAY}, {R_SHORT_VIEW, R_SUBBLOCK}, {R_SUBBLOCK, R_SHORT_VIEW}, {R_STATIC, R_ARRAY}, {R_STATIC, R_STATIC}, {R_REF, R_REF}, {R_TRANSPOSED_STORAGE, R_TRANSPOSED_STORAGE},
+			{R_INNER_PADDED, R_INNER_PADDED}, {R_OUTER_PADDED, R_OUTER_PADDED}, {R_INNER_PADDED, R_ARRAY}, {R_OUTER_PADDED, R_SUBBLOCK}};
 		for(auto const& a : vals) { for(auto const& b : vals) {
 			if(mc::past_deadline()) { mc::R.exhaustive = false; break; }
 			++g_pairs; if(prod(a.ext) >= 1 && prod(b.ext) >= 1 && !(a.ext == b.ext && a.v == b.v)) { ++g_nontrivial; }
@@ -182,7 +190,8 @@ int main(int argc, char** argv) {
 					Ctx c{&a, &b, rp.a, rp.b, (cc & 1) != 0, (cc & 2) != 0, false};
 					if(!only.empty()) { std::string r = std::to_string(D) + "/" + vstr(a) + "/" + std::to_string(c.ra) + (c.ca ? "c" : "m") + "/" + vstr(b) + "/" + std::to_string(c.rb) + (c.cb ? "c" : "m"); if(r != only) { continue; } }
 					mc::cur_set(std::string(rep_name[rp.a]) + " vs " + rep_name[rp.b], std::to_string(D) + "/" + vstr(a) + "/" + std::to_string(c.ra) + (c.ca ? "c" : "m") + "/" + vstr(b) + "/" + std::to_string(c.rb) + (c.cb ? "c" : "m"));
-					with_rep(a, rp.a, [&](auto&& x) { with_rep(b, rp.b, [&](auto&& y) {
+					g_pad = -9;
+					with_rep(a, rp.a, [&](auto&& x) { g_pad = -8; with_rep(b, rp.b, [&](auto&& y) {
 						if(c.ca && c.cb) { check_ops(std::as_const(x), std::as_const(y), c); }
 						else if(c.ca) { check_ops(std::as_const(x), y, c); }
 						else if(c.cb) { check_ops(x, std::as_const(y), c); }
